@@ -388,8 +388,9 @@ def pf_case(rng, fn):
     if fn.lstrip("#").lower() in TIME_PARSING_FNS:
         # the date parser behind these functions is a third-party library whose cost grows quadratically with the
         # length of a junk argument (15 CPU-seconds for 5 000 digits, 4 for 1 000): the stated budget is for pages of
-        # at most 2 kB, so the huge values are cut to that size for this family
-        args = [a[:1500] for a in args]
+        # at most 2 kB, so the huge values are cut for this family (500 characters: about 1 CPU-second, which leaves the
+        # margin that CPU time measured on a busy SMT machine needs)
+        args = [a[:500] for a in args]
     return "{{" + fn + ":" + "|".join(args) + "}}"
 
 
